@@ -16,7 +16,7 @@ BOUNDS = {"quick": "JSON family: all pairs of a 6-op core per type x 5 topologie
                    "setitem||setitem / append||append on one object and on two objects at bound 2; other "
                    "families: 3-op core x 2 topologies, bound 1",
           "thorough": "JSON family: all pairs of the full mutator set x 5 topologies at bound 1 WITHOUT reduction; 3-op core "
-                      "at bound 2; 3 threads x 1 op and 2 threads x 2 ops on the core at bound 1; other families 6-op core"}
+                      "at bound 2 (also through objects the threads construct themselves); 3 threads x 1 op and 2 threads x 2 ops on the core at bound 1; other families 6-op core"}
 ASSUMPTIONS = ["preemption only between source lines of library code (CPython polls the eval-breaker at calls and "
                "backward jumps)", "resolver/validator frames are invisible subtrees (validated in the thorough tier by "
                "re-running bound 1 without the reduction)", "threading support enabled (library default)"]
@@ -25,9 +25,9 @@ INIT = {"dict": {"k": 0, "c": {"k": 0, "x": 0}, "l": [0, 1, 2]},
         "list": [0, [0, 1, 2], {"k": 0, "x": 0}]}
 
 DICT_OPS = {
-    "setitem_diff": lambda t: ("setitem", (("a", "b", "d")[t], t)),
+    "setitem_diff": lambda t: ("setitem", (("a", "b", "d", "e", "f", "g")[t], t)),
     "setitem_same": lambda t: ("setitem", ("s", t)),
-    "setitem_nested": lambda t: ("setitem", (("a", "b", "d")[t], {"n": [t]})),
+    "setitem_nested": lambda t: ("setitem", (("a", "b", "d", "e", "f", "g")[t], {"n": [t]})),
     "delitem": lambda t: ("delitem", ("k",)),
     "pop": lambda t: ("pop", ("k",)),
     "popitem": lambda t: ("popitem", ()),
@@ -148,6 +148,14 @@ def plan(tier, seed):
                         programs1_noreduce += pairs_for(c, topo, full)
                         if topo in ("same", "two-objects", "root+child"):
                             programs2 += pairs_for(c, topo, CORE3)
+                    # both threads CONSTRUCT their own object on a file nobody has opened yet and write through it at once
+                    # (two preemptions are needed to see two writers inside the critical section; ~40k schedules each)
+                    k_ = env.kind_of(c)
+                    cfgn = seq.Config(c, initial=(INIT[k_], INIT[k_]), objects=(0,), label=c)
+                    programs2.append({"label": "%s/fresh-objects/newwrite||newwrite" % c, "cfg": cfgn, "ctx": None,
+                                      "threads": [[("newwrite", 1, "n0")], [("newwrite", 1, "n1")]], "pair": "newwrite||newwrite",
+                                      "topology": "fresh-objects", "property": PROPERTY, "module": __name__,
+                                      "final_views": False})
                     for topo in ("same", "two-objects", "root+child"):
                         k = env.kind_of(c)
                         _, _, _, kinds = topologies(k)[topo]
